@@ -367,9 +367,9 @@ func cmdCheck(args []string) {
 		}
 	}
 	for _, fn := range fns {
-		if hard[fn] {
-			continue
-		}
+		// a function whose own contract fails is a violation whatever its fallback says; the fallback still runs,
+		// to attach a concrete failing scenario of the real code to the report when it finds one
+		isHard := hard[fn]
 		var covering []FallbackSpec
 		for _, fb := range cfg.Fallbacks {
 			for _, c := range fb.Covers {
@@ -409,7 +409,7 @@ func cmdCheck(args []string) {
 			}
 			names = append(names, fb.Name)
 		}
-		if allPass {
+		if allPass && !isHard {
 			heldByFallback[fn] = names
 			fmt.Printf("FALLBACK-HELD property=%s function=%s proof annotations no longer fit the code (%d obligations); decided by bounded run(s) of the real code: %s\n", *prop, fn, len(problems[fn]), strings.Join(names, ","))
 		}
